@@ -11,7 +11,8 @@ Open Scope Z_scope.
 Definition max_int64 : Z := 2 ^ 63 - 1.
 
 (* scanner.setPaging *)
-Definition paging_offset (skip : option Z) : Z := match skip with Some s => s | None => 0 end.
+Definition paging_offset (skip : option Z) : Z :=
+  match skip with Some s => if s <? 0 then 0 else s | None => 0 end.
 Definition paging_limit (limit : option Z) : Z :=
   match limit with Some l => if l <? 0 then max_int64 else l | None => max_int64 end.
 
